@@ -863,6 +863,8 @@ static int ec_substitute(char *loc, char *cmd, char *arg, char *txt)
 		int off = 0;		/* the part of ln already copied to r */
 		/* search from off, but let anchors and word boundaries see the whole line */
 		while (rstr_findat(re, ln, off, LEN(offs) / 2, offs, 0) >= 0) {
+			if (!ln[offs[0]])	/* after the line's newline */
+				break;
 			if (!r)
 				r = sbuf_make();
 			sbuf_mem(r, ln + off, offs[0] - off);
